@@ -1766,6 +1766,19 @@ class Compiler:
 
     def visit_CodeBlock(self, node):
         stmts = template(textwrap.dedent(node.source.strip('\n')))
+
+        # The names of the compiler are protected here as they are in
+        # ``tal:define`` and ``tal:repeat``.
+        for name in itertools.chain(*map(ast.walk, stmts)):
+            if isinstance(name, ast.Name) and \
+               not isinstance(name.ctx, ast.Load) and (
+                   name.id.startswith('__') or
+                   name.id in COMPILER_INTERNALS_OR_DISALLOWED or
+                   name.id in self.defaults):
+                raise TranslationError(
+                    "Name disallowed by compiler.", node.source
+                )
+
         stmts = list(map(self._visitor, stmts))
         stmts.insert(0, TokenRef(node.source))
         return stmts
